@@ -7,13 +7,15 @@
   nbits / rbits / encoding; the floating-point target is a format parameter `fmt` of the F64 model (binary64, binary32, …).
   Right-hand sides: `ConvFixpntSpec.value n r p` (= toSigned n p / 2^r, a Rat) and `ConvFixpntSpec.toInt n r p` (truncation toward zero).
 
-  What holds of the pinned code:
+  What holds of the code (after the repair wave: `fix:` commits "fixpnt conversion to a signed integer must truncate negative values
+  toward zero" and "… to an unsigned integer must return the integer part of the value, not the raw bit pattern"):
     * `to_native` is exact whenever nbits ≤ the precision of the target (53 for double, 24 for float), the zero encoding reads +0;
-    * `to_signed` returns the FLOOR of the value (whenever the integer part fits the target type) — that is the truncation toward
-      zero only for values ≥ 0 and for integers;
-    * `to_unsigned` returns the RAW bit pattern: exact only for rbits = 0.
+    * `to_signed` returns the value truncated toward zero whenever the integer part fits the target type;
+    * `to_unsigned` (= `to_signed<long long>` cast to the unsigned type) returns the truncated value of every non-negative
+      encoding that fits the target type.
 -/
 import UVerifProofs.Lemmas.ConvFixpntTo
+import UVerifProofs.Lemmas.ConvFixpntRoundtrip
 
 open UVerif UVerif.F64 UVerif.ConvFixpnt UVerif.Limbs
 
@@ -62,99 +64,88 @@ theorem C04_fixpnt_to_float_wide_counterexample :
     toNative binary32 26 0 0x1ffffff = F.fin false (2 ^ 25 * 2 ^ 149) ∧
     toNative binary32 26 0 0x1ffffff ≠ F.fin false ((2 ^ 25 - 1) * 2 ^ 149) := by decide +kernel
 
-/-- `to_signed<NativeInt>` (NativeInt of `sz` bits, result read as an sz-bit two's complement pattern): whenever the integer part
-    fits (n − r ≤ sz, and n − r ≤ 64 — above that the loop is cut at 64 bits) the result is the FLOOR of the value:
-    the loop copies the integer-part bits and sign-extends, i.e. an arithmetic shift -/
-theorem C04_fixpnt_to_signed_floor (hr : r < n) (hsz : n - r ≤ sz) (h64 : n - r ≤ 64) (hp : p < 2 ^ n) :
-    toSigned sz (toSignedPat n r sz p) = toSigned n p / (((2 ^ r : Nat) : Int)) ∧
-    toSigned sz (toSignedPat n r sz p) = (ConvFixpntSpec.value n r p).floor := by
-  have h := toSignedPat_floor hr hsz h64 hp
-  refine ⟨h, ?_⟩
-  rw [h]
-  unfold ConvFixpntSpec.value
-  show _ = ⌊((toSigned n p : Int) : Rat) / ((2 ^ r : Nat) : Rat)⌋
-  exact (Rat.floor_intCast_div_natCast _ _).symm
-
-example : (4 : Nat) < 8 ∧ 8 - 4 ≤ 32 ∧ 8 - 4 ≤ 64 ∧ 0xE8 < 2 ^ 8 := by decide
-example : toSigned 32 (toSignedPat 8 4 32 0xE8) = -2 := by decide   -- −1.5 reads −2
-
 /-- the specification of the integer read in integer terms: truncation toward zero = `Int.tdiv` of the raw integer by 2^r -/
 theorem C04_fixpnt_to_int_spec_int (n r p : Nat) : ConvFixpntSpec.toInt n r p = (toSigned n p).tdiv (((2 ^ r : Nat) : Int)) :=
   spec_toInt_eq n r p
 
-/-- the full C04 clause for signed reads -/
-def C04_fixpnt_to_signed_full : Prop :=
-  ∀ n r sz p : Nat, r < n → n - r ≤ sz → n - r ≤ 64 → p < 2 ^ n →
-    toSigned sz (toSignedPat n r sz p) = ConvFixpntSpec.toInt n r p
+/-- the integer-part bits of the encoding, sign-extended (the value of `ll` after the two loops of `to_signed`), are the FLOOR
+    of the value — the step the repaired code adds turns it into the truncation -/
+theorem C04_fixpnt_to_signed_floor_bits (hr : r < n) (hsz : n - r ≤ sz) (h64 : n - r ≤ 64) (hp : p < 2 ^ n) :
+    toSigned sz (toSignedFloorPat n r sz p) = (ConvFixpntSpec.value n r p).floor := by
+  rw [toSignedFloorPat_floor hr hsz h64 hp]
+  unfold ConvFixpntSpec.value
+  show _ = ⌊((toSigned n p : Int) : Rat) / ((2 ^ r : Nat) : Rat)⌋
+  exact (Rat.floor_intCast_div_natCast _ _).symm
 
-/-- `to_signed` agrees with the specification (truncation toward zero) for the values ≥ 0 and for the integers.
-    Missing for the full statement: negative non-integers, where the code returns the floor (one below the truncation) — the full
-    statement is false, see `C04_fixpnt_to_signed_counterexample`. -/
-theorem C04_fixpnt_to_signed_trunc_partial (hr : r < n) (hsz : n - r ≤ sz) (h64 : n - r ≤ 64) (hp : p < 2 ^ n)
-    (hv : 0 ≤ toSigned n p ∨ toSigned n p % (((2 ^ r : Nat) : Int)) = 0) :
+/-- `to_signed<NativeInt>` (NativeInt of `sz` bits, result read as an sz-bit two's complement pattern): whenever the integer part
+    fits (n − r ≤ sz, and n − r ≤ 64 — above that the loop is cut at 64 bits) the result is the value TRUNCATED TOWARD ZERO,
+    for every encoding: the loops copy the integer-part bits and sign-extend (floor), a negative value with a non-zero fraction is
+    then incremented.  This is the full C04 clause for signed integer reads. -/
+theorem C04_fixpnt_to_signed (hr : r < n) (hsz : n - r ≤ sz) (h64 : n - r ≤ 64) (hp : p < 2 ^ n) :
     toSigned sz (toSignedPat n r sz p) = ConvFixpntSpec.toInt n r p := by
-  rw [(C04_fixpnt_to_signed_floor hr hsz h64 hp).1, spec_toInt_eq]
-  rcases hv with h | h
-  · rw [Int.tdiv_eq_ediv_of_nonneg h]
-  · have hd : (((2 ^ r : Nat) : Int)) ∣ toSigned n p := Int.dvd_of_emod_eq_zero h
-    rw [Int.tdiv_eq_ediv_of_dvd hd]
+  rw [spec_toInt_eq]; exact toSignedPat_trunc hr hsz h64 hp
 
-example : (0 : Int) ≤ toSigned 8 0x18 ∨ toSigned 8 0x18 % (((2 ^ 4 : Nat) : Int)) = 0 := by decide
-example : toSigned 8 0xE0 % (((2 ^ 4 : Nat) : Int)) = 0 ∧ toSigned 32 (toSignedPat 8 4 32 0xE0) = -2 := by decide
+example : (4 : Nat) < 8 ∧ 8 - 4 ≤ 32 ∧ 8 - 4 ≤ 64 ∧ 0xE8 < 2 ^ 8 := by decide
+example : toSigned 32 (toSignedPat 8 4 32 0xE8) = -1 := by decide   -- −1.5 reads −1
+example : toSigned 32 (toSignedPat 8 4 32 0xE0) = -2 := by decide   -- −2.0 reads −2
+example : toSigned 32 (toSignedPat 8 4 32 0x18) = 1 := by decide    -- 1.5 reads 1
 
-/-- fixpnt<8,4> 0xF8 (= −0.5) read as int32: the code returns −1 (floor), the truncation toward zero is 0 -/
-theorem C04_fixpnt_to_signed_counterexample : ¬ C04_fixpnt_to_signed_full := by
-  intro h
-  have := h 8 4 32 0xF8 (by decide) (by decide) (by decide) (by decide)
-  rw [spec_toInt_eq] at this
-  revert this
-  decide
+/-- no integer part at all (nbits = rbits, every value lies in [−1/2, 1/2)): the read is 0 = the truncation -/
+theorem C04_fixpnt_to_signed_no_integer_part (n sz p : Nat) (hn : 0 < n) (hp : p < 2 ^ n) :
+    toSigned sz (toSignedPat n n sz p) = ConvFixpntSpec.toInt n n p := by
+  have h0 : toSignedPat n n sz p = 0 := by unfold toSignedPat; rw [if_pos (Nat.le_refl n)]
+  have hz : toSigned sz 0 = 0 := by
+    unfold toSigned; split
+    · rfl
+    · simp [Nat.zero_mod, Nat.two_pow_pos]
+  rw [h0, hz, spec_toInt_eq]
+  have hD : (0 : Int) < ((2 ^ n : Nat) : Int) := by exact_mod_cast Nat.two_pow_pos n
+  obtain ⟨h1, h2⟩ := toSigned_range hn p
+  have hM : M2 (n - 1) * 2 = ((2 ^ n : Nat) : Int) := by
+    unfold M2
+    have : 2 ^ n = 2 ^ (n - 1) * 2 := by rw [← Nat.pow_succ]; congr 1; omega
+    rw [this]; push_cast; ring
+  symm
+  by_cases hx : 0 ≤ toSigned n p
+  · exact Int.tdiv_eq_zero_of_lt hx (by omega)
+  · have e : toSigned n p = -(-toSigned n p) := by ring
+    rw [e, Int.neg_tdiv, Int.tdiv_eq_zero_of_lt (by omega) (by omega)]
+    rfl
 
-theorem C04_fixpnt_to_signed_floor_counterexample :
-    toSigned 32 (toSignedPat 8 4 32 0xF8) = -1 ∧ (toSigned 8 0xF8).tdiv (((2 ^ 4 : Nat) : Int)) = 0 := by decide
+/-- the witness of the former defect `fixpnt.to_signed.floor_of_negative`: fixpnt<8,4> 0xF8 (= −0.5) read as int32 is 0 -/
+theorem C04_fixpnt_to_signed_witness :
+    toSigned 32 (toSignedPat 8 4 32 0xF8) = 0 ∧ (toSigned 8 0xF8).tdiv (((2 ^ 4 : Nat) : Int)) = 0 := by decide
 
-/-- the full C04 clause for unsigned reads -/
-def C04_fixpnt_to_unsigned_full : Prop :=
-  ∀ n r sz p : Nat, r < n → n < 64 → p < 2 ^ (n - 1) → n - r ≤ sz →
-    ((toUnsignedPat n sz p : Nat) : Int) = ConvFixpntSpec.toInt n r p
-
-/-- `to_unsigned` ignores the radix point: fixpnt<8,4> 0x18 (= 1.5) read as uint32 returns 24 (the raw pattern), the truncation is 1 -/
-theorem C04_fixpnt_to_unsigned_counterexample : ¬ C04_fixpnt_to_unsigned_full := by
-  intro h
-  have := h 8 4 32 0x18 (by decide) (by decide) (by decide) (by decide)
-  rw [spec_toInt_eq] at this
-  revert this
-  decide
-
-theorem C04_fixpnt_to_unsigned_raw_counterexample :
-    toUnsignedPat 8 32 0x18 = 24 ∧ (toSigned 8 0x18).tdiv (((2 ^ 4 : Nat) : Int)) = 1 := by decide
-
-/-- … so the unsigned read is exact for rbits = 0 (n < 64): every non-negative value that fits the target type is returned -/
-theorem C04_fixpnt_to_unsigned_rbits0 (hn0 : 0 < n) (hn : n < 64) (hp : p < 2 ^ (n - 1)) (hsz : p < 2 ^ sz) :
-    ((toUnsignedPat n sz p : Nat) : Int) = ConvFixpntSpec.toInt n 0 p := by
+/-- `to_unsigned<NativeInt>` = `static_cast<NativeInt>(to_signed<long long>())`: every NON-NEGATIVE encoding whose truncated value
+    fits the unsigned target type (p / 2^r < 2^sz) is read as that value; n − r ≤ 64 as for the signed read.
+    This is the full C04 clause for unsigned integer reads (a negative value does not fit an unsigned type). -/
+theorem C04_fixpnt_to_unsigned (hr : r < n) (h64 : n - r ≤ 64) (hp : p < 2 ^ (n - 1)) (hsz : p / 2 ^ r < 2 ^ sz) :
+    ((toUnsignedPat n r sz p : Nat) : Int) = ConvFixpntSpec.toInt n r p := by
+  have hn0 : 0 < n := by omega
   have hlt : p < 2 ^ n := Nat.lt_of_lt_of_le hp (Nat.pow_le_pow_right (by omega) (by omega))
-  rw [toUnsignedPat_nonneg hn0 hn hp hsz, spec_toInt_eq, toSigned_of_lt hn0 hlt, if_pos hp]
-  simp
+  rw [toUnsignedPat_nonneg hr h64 hp hsz, spec_toInt_eq, toSigned_of_lt hn0 hlt, if_pos hp,
+    Int.tdiv_eq_ediv_of_nonneg (by omega), Int.natCast_ediv]
 
-example : (0 : Nat) < 12 ∧ 12 < 64 ∧ 0x7ab < 2 ^ (12 - 1) ∧ 0x7ab < 2 ^ 16 ∧ toUnsignedPat 12 16 0x7ab = 0x7ab := by decide
+example : (4 : Nat) < 8 ∧ 8 - 4 ≤ 64 ∧ 0x18 < 2 ^ (8 - 1) ∧ 0x18 / 2 ^ 4 < 2 ^ 32 := by decide
 
-/-- more generally, the unsigned read of a non-negative value is value·2^rbits (the raw integer), whatever rbits is -/
-theorem C04_fixpnt_to_unsigned_raw (hn0 : 0 < n) (hn : n < 64) (hp : p < 2 ^ (n - 1)) (hsz : p < 2 ^ sz) :
-    toUnsignedPat n sz p = p := toUnsignedPat_nonneg hn0 hn hp hsz
+/-- the witness of the former defect `fixpnt.to_unsigned.raw_pattern`: fixpnt<8,4> 0x18 (= 1.5) read as uint32 is 1 (was 24) -/
+theorem C04_fixpnt_to_unsigned_witness :
+    toUnsignedPat 8 4 32 0x18 = 1 ∧ (toSigned 8 0x18).tdiv (((2 ^ 4 : Nat) : Int)) = 1 := by decide
+
+/-- … so the unsigned read is the encoding itself for rbits = 0 -/
+theorem C04_fixpnt_to_unsigned_rbits0 (hn0 : 0 < n) (hn : n ≤ 64) (hp : p < 2 ^ (n - 1)) (hsz : p < 2 ^ sz) :
+    toUnsignedPat n 0 sz p = p := by
+  have := toUnsignedPat_nonneg (n := n) (r := 0) (sz := sz) (p := p) hn0 (by omega) hp (by simpa using hsz)
+  simpa using this
+
+example : (0 : Nat) < 12 ∧ 12 ≤ 64 ∧ 0x7ab < 2 ^ (12 - 1) ∧ 0x7ab < 2 ^ 16 ∧ toUnsignedPat 12 0 16 0x7ab = 0x7ab := by decide
 
 /-! ### converting back returns the encoding -/
 
-/-- the full round-trip clause for double: both arithmetic modes -/
-def C04_fixpnt_roundtrip_full : Prop :=
-  ∀ (n r : Nat) (sat : Bool) (p : Nat), r ≤ n → 0 < n → n ≤ 53 → p < 2 ^ n →
-    fromIeee n r sat 11 52 (toBits64 (toNative binary64 n r p)) = p
-
-/-- fixpnt → double → fixpnt, Modulo (the `sat = false` part of `C04_fixpnt_roundtrip_full`): for nbits ≤ 53 the encoding comes
-    back, for every rbits ≤ nbits and every encoding (maxneg included).  The double is normal with exponent ⌊log2|x|⌋ − rbits
-    (x the raw integer), `convert` shifts the 53-bit significand right by 52 − ⌊log2|x|⌋ ≥ 0 — the discarded bits are zero, the
-    guard/round/sticky rounding does nothing — and two's-complements in 64 bits before `setbits`.
-    Missing for the full statement: Saturate, where the range test compares with `float(maxpos)` / `float(maxneg)`, i.e. needs
-    the (inexact for nbits > 24) single-precision accumulation of maxpos; sampled true (`…_cfg_…` below), not proved. -/
+/-- fixpnt → double → fixpnt, Modulo: for nbits ≤ 53 the encoding comes back, for every rbits ≤ nbits and every encoding (maxneg
+    included).  The double is normal with exponent ⌊log2|x|⌋ − rbits (x the raw integer), `convert` shifts the 53-bit significand
+    right by 52 − ⌊log2|x|⌋ ≥ 0 — the discarded bits are zero, the guard/round/sticky rounding does nothing — stores the magnitude
+    with `setbits` and two's-complements a negative result in nbits. -/
 theorem C04_fixpnt_roundtrip_double_modulo (hr : r ≤ n) (hn0 : 0 < n) (hn : n ≤ 53) (hp : p < 2 ^ n) :
     fromIeee n r false 11 52 (toBits64 (toNative binary64 n r p)) = p :=
   roundtrip_double hr hn0 hn hp
@@ -162,10 +153,22 @@ theorem C04_fixpnt_roundtrip_double_modulo (hr : r ≤ n) (hn0 : 0 < n) (hn : n 
 example : (4 : Nat) ≤ 8 ∧ (8 : Nat) ≤ 53 ∧ 0x80 < 2 ^ 8 := by decide
 example : toBits64 (toNative binary64 8 4 0xE8) = 0xBFF8000000000000 := by decide +kernel   -- −1.5
 
-/-- a sample of the Saturate round trip (a test, not a theorem about all configurations) -/
-theorem C04_fixpnt_roundtrip_cfg_saturate_8_4 :
-    ∀ p ∈ [0x00, 0x01, 0x18, 0x7f, 0x80, 0x81, 0xE8, 0xF8, 0xff], fromIeee 8 4 true 11 52 (toBits64 (toNative binary64 8 4 p)) = p := by
-  decide +kernel
+/-- fixpnt → double → fixpnt, Saturate: the same.  The double read from the encoding is ±X·2^−rbits exactly; the Saturate range
+    test compares it with `float(maxpos)` / `float(maxneg)` (single precision: float(maxpos) is 2^(nbits−1−rbits) for
+    nbits > 25), the value is inside [maxneg, maxpos], and the conversion is the clamp of the correctly rounded scaled value
+    (`C03_fixpnt_from_ieee_saturate`) — the raw integer itself. -/
+theorem C04_fixpnt_roundtrip_double_saturate (hr : r ≤ n) (hn0 : 0 < n) (hn : n ≤ 53) (hp : p < 2 ^ n) :
+    fromIeee n r true 11 52 (toBits64 (toNative binary64 n r p)) = p :=
+  roundtrip_double_sat hr hn0 hn hp
+
+example : fromIeee 26 20 true 11 52 (toBits64 (toNative binary64 26 20 0x1ffffff)) = 0x1ffffff := by decide +kernel
+
+/-- the full round-trip clause for double: both arithmetic modes, every nbits ≤ 53, rbits ≤ nbits, every encoding -/
+theorem C04_fixpnt_roundtrip_full (n r : Nat) (sat : Bool) (p : Nat) (hr : r ≤ n) (hn0 : 0 < n) (hn : n ≤ 53) (hp : p < 2 ^ n) :
+    fromIeee n r sat 11 52 (toBits64 (toNative binary64 n r p)) = p := by
+  cases sat
+  · exact C04_fixpnt_roundtrip_double_modulo hr hn0 hn hp
+  · exact C04_fixpnt_roundtrip_double_saturate hr hn0 hn hp
 
 /-- the exact structural result of `to_native`: sign and magnitude (in units of 2^-fmt.q) of the result -/
 theorem C04_fixpnt_to_native_fin (fmt : Fmt) (ok : fmt.Ok) (hr : r ≤ fmt.q) (hn : n ≤ fmt.p)
